@@ -3,11 +3,11 @@
 EXTENDS Order, Json, IOUtils, TLC, FiniteSets
 E == INSTANCE Elastic
 F == INSTANCE Fluid
-CONSTANTS BudgetSnap, BudgetRebuild, BudgetCompose
+CONSTANTS BudgetSnap, BudgetRebuild, BudgetCompose, BudgetMap
 Events == ndJsonDeserialize(IOEnv.TRACE)
 VARIABLES l, bad, seen
 vars == <<l, bad, seen>>
-Init == l = 1 /\ bad = <<>> /\ seen = [ctors |-> {}, overloads |-> {}, fluid |-> {}, cmp |-> 0]
+Init == l = 1 /\ bad = <<>> /\ seen = [ctors |-> {}, overloads |-> {}, fluid |-> {}, cmp |-> 0, maps |-> {}]
 IsEvent(e) == l <= Len(Events) /\ Events[l].e = e /\ l' = l + 1
 Flag(ok, rec) == bad' = IF ok \/ Len(bad) >= 400 THEN bad ELSE Append(bad, rec)
 B(x) == x = 1
@@ -64,6 +64,15 @@ TCompose == LET r == Events[l] IN
   /\ IsEvent("Compose") /\ r.n > 0
   /\ Flag(r.nonfinite = 0 /\ r.err_eps_kappa <= BudgetCompose, [cls |-> "model_inverse_composition", key |-> r.model, num |-> r.num, detail |-> <<r.err_eps_kappa>>])
   /\ UNCHANGED seen
+(* every (model numeric type, overload numeric type, call path) combination of the forward and inverse maps on real-valued tensors *)
+(* and materials with full mantissas: within BudgetMap ulps OF THE OVERLOAD'S TYPE of c1 X + c2 tr(X) I evaluated in __float128    *)
+(* from the stored parameters, at the scale of the largest term                                                                    *)
+TMapReal == LET r == Events[l] IN
+  /\ IsEvent("MapReal") /\ r.n > 0 /\ r.model \in {"elastic", "compressible", "incompressible"} /\ r.fn \in {"forward", "inverse"}
+  /\ r.num \in {"f", "d", "l"} /\ r.ov \in {"f", "d", "l"} /\ r.via \in {"direct", "base"}
+  /\ Flag(r.nonfinite = 0 /\ r.ulps <= BudgetMap, [cls |-> IF r.model = "elastic" THEN "elastic_map_real" ELSE "fluid_map_real",
+                                                    key |-> r.model \o ":" \o r.fn \o ":" \o r.ov \o ":" \o r.via, num |-> r.num, detail |-> <<r.ulps>>])
+  /\ seen' = [seen EXCEPT !.maps = @ \cup {<<r.model, r.fn, r.num, r.ov, r.via>>}]
 (* C14 for the three model classes: lexicographic on their two stored values *)
 TModelCmp == LET r == Events[l]  c == Compare(r.a, r.b) IN
   /\ IsEvent("ModelCmp") /\ Len(r.a) = Len(r.b)
@@ -73,11 +82,11 @@ TModelCmp == LET r == Events[l]  c == Compare(r.a, r.b) IN
   /\ seen' = [seen EXCEPT !.cmp = @ + 1]
 TFinish == /\ l = Len(Events) + 1 /\ l' = l + 1
            /\ JsonSerialize(IOEnv.OUT, [bad |-> bad, ctors |-> Cardinality(seen.ctors), overloads |-> Cardinality(seen.overloads),
-                                         fluid |-> Cardinality(seen.fluid), cmp |-> seen.cmp,
+                                         fluid |-> Cardinality(seen.fluid), cmp |-> seen.cmp, map_combinations |-> Cardinality(seen.maps),
                                          ctor_pairs_missing |-> Cardinality((E!SupportedPairs \X {"f", "d", "l"}) \ {<<<<x[1], x[2]>>, x[3]>> : x \in seen.ctors})])
            /\ UNCHANGED <<bad, seen>>
 Next == TElasticCtor \/ TElasticStress \/ TElasticStrain \/ TStub \/ TFluidStress \/ TFluidRate \/ TFluidLinear \/ TFluidOneArg
-        \/ TElasticRebuild \/ TCompose \/ TModelCmp \/ TFinish
+        \/ TElasticRebuild \/ TCompose \/ TMapReal \/ TModelCmp \/ TFinish
 Spec == Init /\ [][Next]_vars
 Accepted == TLCGet("stats").diameter - 2 = Len(Events)
 =============================================================================
